@@ -2,6 +2,7 @@
 import itertools
 import random
 
+from bcheck import history
 from bcheck.common import Collector, args, run_sharded, call
 from bcheck import urlref as R
 
@@ -93,9 +94,20 @@ REDIRECTS = ["http://a.com/#x&url=http%3A%2F%2Fb.com%2F%3Fa%3D1%26b%3D2", "http:
              "http://a.com/?next=%2Fp%3Fa%3D1%26b%3D2", "http://a.com/r?u=https%3A%2F%2FB.com%2F%2541%3Fq%3D%2526", "a.com/#!/x?url=http%3A%2F%2Fb.com",
              "https://www.google.com/url?q=https%3A%2F%2Ffr.b.co.uk%2Fa%23f&sa=D", "http://a.com/?url=http%3A%2F%2Fb.com%2F%23frag%26x%3D1"]
 REDIRECTS += ["http://a.com/?%75rl=http://b.com", "http://a.com/p?x=1&ne%78t=%2Fq", "youtube.com/%2e%2e?ref=x", "fr.facebook.com/a/%2E%2E/b", "a.com:8080/p?u=/x", "a.com/p?next=/x%3Fa%3D1", "//a.com/p?u=/x", "a.com/p?u=//b.com/y"]
+# escaped letters on which normalize_url decides something (index pages, irrelevant / per-domain / language keys)
+REDIRECTS += ["http://a.com/%49ndex.html", "http://a.com/x/%44efault.aspx", "https://www.youtube.com/watch?v=abcdefghijk&%46eature=share", "http://a.com/?%55TM_source=x&a=1",
+              "http://a.com/p?%48L=fr", "http://a.com/p?%53ID=1&a=2", "http://a.com/x.%41MP", "http://a.com/x/%41mp/"]
+# what infer_redirection reads on the raw string, and canonicalize_url rewrites: a control character inside a key, '&amp;' in front of it, dot segments
+# inside a cache path
+REDIRECTS += ["http://a.com/?u\x01rl=http%3A%2F%2Fb.c%2F", "http://a.com/?x=1&amp;url=http%3A%2F%2Fb.c%2F", "https://amp-a-com.cdn.ampproject.org/v/s/../s/a.com/y",
+              "https://amp-a-com.cdn.ampproject.org/v/./s/a.com/y", "https://amp-a-com.cdn.ampproject.org/v/s/a.com/x/../y", "\x85http://a.com/p?u=/x"]
 # pairs that are easy to confuse: when they have the same canonical / normalized form they must agree on the next scheme too
 PAIRS = [("http://a.com/x?Q=http://b.com", "http://b.com"), ("http://a.com/x?q=http://b.com", "http://a.com/x?Q=http://b.com"), ("a.com?ref=%46b", "a.com?ref=Fb"),
-         ("a.com/p?u=HTTP://B.COM/x", "b.com/x"), ("a.com/Index.html", "a.com/"), ("a.com/INDEX.php/default.aspx", "a.com/INDEX.php"), ("https://a.com/", "a.com:443"), ("http://a.com:0/", "http://a.com/")]
+         ("a.com/p?u=HTTP://B.COM/x", "b.com/x"), ("a.com/Index.html", "a.com/"),
+         # items that only some hosts drop (per-domain filters): dropped by normalize_url, so the fingerprints must not tell the two apart
+         ("https://www.youtube.com/watch?v=abcdefghijk&t=42s", "https://www.youtube.com/watch?v=abcdefghijk"),
+         ("https://www.youtube.com/results?search_query=a&si=xyz", "https://www.youtube.com/results?search_query=a"),
+         ("https://www.facebook.com/p?_rdr&id=1", "https://www.facebook.com/p?id=1"), ("a.com/INDEX.php/default.aspx", "a.com/INDEX.php"), ("https://a.com/", "a.com:443"), ("http://a.com:0/", "http://a.com/")]
 WRAPS = [("\x08 ", ""), (" \x00", " "), ("\x1b\t", "\x7f "), ("", " \x01"), ("\x00 \x00 ", "")]
 HOSTS_EXTRA = ["fr.a.com", "fr-FR.a.com", "www.fr.a.com", "m.a.com", "amp.a.com", "amp-x.a.com", "a.co.uk", "A.COM:8080", "youtube.com", "www.facebook.com", "fr.facebook.com"]
 
@@ -115,6 +127,8 @@ def shard(job):
 def main():
     a = args("C03")
     col = Collector("C03", a.tier, a.seed)
+    if a.replay and history.replayed(a, col, "C03"):
+        return
     if a.replay:
         import json
         rp = json.load(open(a.replay))
@@ -176,6 +190,7 @@ def main():
                 "normalize(canonicalize(u)) == normalize(u), fingerprint(canonicalize(u)) == fingerprint(u), and every collision class (inputs grouped by "
                 "canonical form, by normalized form) is constant under the next scheme. distinct_nontrivial = parseable URLs + collision classes with >= 2 members"
                 % maxlen)
+    history.run(col, "C03", a.tier == "quick")
     col.dump(a.out)
 
 
